@@ -22,7 +22,8 @@ Not decided: numeric equality with the specification beyond these shapes (they a
 """
 import re
 
-from fvlib.core import CFG, CallGraph, assignments, calls, callee_matches, callee_name, describe, guards, guard_region, short
+from fvlib.core import (CFG, CallGraph, assignments, calls, callee_matches, callee_name, describe, flatten_terms, guards, guard_region, match_commuted,
+                        short, simplify_desc)
 
 MIN = r"call:min_gas\(arg:self,arg:gas_costs,arg:fee\)"
 WIT = r"call:saturating_mul\(call:saturating_sub\(call:witness_limit\(arg:self\),call:size_dynamic\(call:witnesses\(arg:self\)\)\),call:gas_per_byte\(arg:fee\)\)"
@@ -97,41 +98,39 @@ def run(F, rep, tier, allfacts):
     rep.floor("FORM-max_gas", "max_gas bodies", len(mg), 2)
     for n, f in mg:
         rep.saw(n)
-        ex = result_expr(f)
+        ex = [simplify_desc(e) for e in result_expr(f)]
         ok = False
-        leaf, rights = (None, [])
         if len(ex) == 1:
-            leaf, rights = leftmost_leaf_of_saturating_add(ex[0])
-            ok = bool(re.match("^" + MIN + "$", leaf)) and len(rights) >= 1 and any(re.match("^" + WIT + "$", r) for r in rights)
-            if "script::" in n:
-                ok = ok and any(r == "arg:self.body.script_gas_limit" for r in rights) and len(rights) == 2
-            else:
-                ok = ok and len(rights) == 1
+            # a saturating sum (associative, commutative): exactly the specified summands, in any order / nesting
+            terms = flatten_terms(ex[0])
+            want_terms = ["^" + MIN + "$", "^" + WIT + "$"] + ([r"^arg:self\.body\.script_gas_limit$"] if "script::" in n else [])
+            ok = len(terms) == len(want_terms) and all(sum(1 for t in terms if match_commuted(w, t) is not None) == 1 for w in want_terms)
         rep.check(ok, "FORM-max_gas", short(n).replace("fuel_tx::transaction::", ""), "%s:%s" % (f["file"], f["line"]),
                   "max_gas must be min_gas(gas_costs, fee) + remaining witness gas (+ script gas limit) with saturating additions only; found %s" % ex)
         rep.sample({"fn": short(n), "expr": ex})
     for which in ("min", "max"):
         n, f = F.find(r"^fuel_tx::transaction::fee::Chargeable::%s_fee$" % which, ["fuel_tx"], one=True)
         rep.saw(n)
-        ex = result_expr(f)
+        ex = [simplify_desc(e) for e in result_expr(f)]
         want = r"^call:saturating_add\(call:gas_to_fee\(call:%s_gas\(arg:self,arg:gas_costs,arg:fee\),arg:gas_price,%s\),%s\)$" % (which, FACTOR, TIP)
-        rep.check(len(ex) == 1 and bool(re.match(want, ex[0])), "FORM-fees", which + "_fee", "%s:%s" % (f["file"], f["line"]),
+        rep.check(len(ex) == 1 and match_commuted(want, ex[0]) is not None, "FORM-fees", which + "_fee", "%s:%s" % (f["file"], f["line"]),
                   "%s_fee must be gas_to_fee(%s_gas(..), gas_price, gas_price_factor).saturating_add(tip); found %s" % (which, which, ex))
     overrides = [n for n, f in F.find(r"Chargeable for .*>::(min_fee|max_fee|refund_fee)$", ["fuel_tx"], required=False)]
     rep.check(not overrides, "FORM-fees", "no-overrides-of-fee-formulas", None, "fee formulas are overridden for a transaction kind: %s" % overrides)
     n, f = F.find(r"^fuel_tx::transaction::fee::gas_to_fee$", ["fuel_tx"], one=True)
     rep.saw(n)
-    ex = result_expr(f)
-    rep.check(len(ex) == 1 and bool(re.match(r"^call:div_ceil\(call:expect\(call:checked_mul\(arg:gas,arg:gas_price\),[^)]*\),arg:factor\)$", ex[0])), "FORM-fees", "gas_to_fee=ceil(gas*price/factor)",
+    ex = [simplify_desc(e) for e in result_expr(f)]
+    rep.check(len(ex) == 1 and match_commuted(r"^call:div_ceil\(call:expect\(call:checked_mul\(arg:gas,arg:gas_price\),[^)]*\),arg:factor\)$", ex[0]) is not None, "FORM-fees", "gas_to_fee=ceil(gas*price/factor)",
               "%s:%s" % (f["file"], f["line"]), "gas_to_fee must be (gas * price).div_ceil(factor) in u128; found %s" % ex)
     casts = sorted(rv[3] for i, j, p, rv, line in assignments(f) if rv[0] == "cast")
     rep.check(casts == ["u128", "u128", "u128"], "FORM-fees", "gas_to_fee:widened-to-u128", "%s:%s" % (f["file"], f["line"]), "all three operands must be widened to u128; casts %s" % casts)
     n, f = F.find(r"^fuel_tx::transaction::fee::Chargeable::refund_fee$", ["fuel_tx"], one=True)
     rep.saw(n)
-    ex = [e for e in result_expr(f) if e.startswith("call:checked_sub(")]
+    ex = [simplify_desc(e) for e in result_expr(f)]
+    ex = [e for e in ex if e.startswith("call:checked_sub(")]
     used = r"call:saturating_add\(call:gas_to_fee\(call:saturating_add\(%s,arg:used_gas\),arg:gas_price,%s\),%s\)" % (MIN, FACTOR, TIP)
-    want = r"^call:checked_sub\(call:max_fee_limit\(arg:self\),call:branch\(call:ok\(call:try_into\(%s\)\)\)\)$" % used
-    rep.check(len(ex) == 1 and bool(re.match(want, ex[0])), "FORM-refund", "refund_fee", "%s:%s" % (f["file"], f["line"]),
+    want = r"^call:checked_sub\(call:max_fee_limit\(arg:self\),conv\(%s\)\)$" % used
+    rep.check(len(ex) == 1 and match_commuted(want, ex[0]) is not None, "FORM-refund", "refund_fee", "%s:%s" % (f["file"], f["line"]),
               "refund_fee must be max_fee_limit().checked_sub(u64::try_from(gas_to_fee(min_gas + used_gas, price, factor) + tip).ok()?); found %s" % ex)
 
     for n, f in fee_formula_fns(F, mg):
